@@ -76,8 +76,9 @@ T0 = _dt.datetime(2024, 1, 1)
 def _spec(rng, base=None):
     """[out_idx, extra_chars, response_time, confidence, err_idx]"""
     if base is None:
-        return [rng.choice([0, 0, 1, 2, 3]), rng.choice([0, 0, 3, 10]), rng.choice([1.0, 0.25, 2.5]),
-                rng.choice([0.8, 0.9, 0.5]), 0]
+        # confidences are whatever score the caller records: probabilities, exact 0/1, percentages, log-probabilities
+        return [rng.choice([0, 0, 1, 2, 3]), rng.choice([0, 0, 3, 10]), rng.choice([1.0, 0.25, 2.5, 2.5, 0.0, 0.001, 4000.0]),
+                rng.choice([0.8, 0.9, 0.5, 0.8, 0.5, 1.0, 0.0, 87.5, -0.25]), 0]
     s = list(base)
     how = weighted(rng, [(3, "out"), (2, "time"), (2, "conf"), (2, "err"), (2, "len"), (1.5, "tiny")])
     if how == "out":
@@ -85,7 +86,7 @@ def _spec(rng, base=None):
     elif how == "time":
         s[2] = base[2] * rng.choice([3.0, 0.2, 1.5])
     elif how == "conf":
-        s[3] = rng.choice([0.1, 0.3, 0.99])
+        s[3] = rng.choice([0.1, 0.3, 0.99]) if abs(base[3]) <= 1 else base[3] * rng.choice([0.5, 1.2])
     elif how == "err":
         s[4] = rng.choice([1, 2])
     elif how == "len":
